@@ -200,6 +200,10 @@ struct Stats
     long tempFreedOnClear{0};
 };
 static Stats g_st;
+// once this many scenarios have failed the verdict is clear: the remaining scenarios are skipped
+// (a defective nextGoal(ptc) may poll with 10 ms sleeps in thousands of scenarios)
+static long g_failed = 0;
+static const long kMaxFailed = 60;
 
 struct Driver
 {
@@ -247,7 +251,10 @@ struct Driver
     bool fail(const std::string &clause, const std::string &w_)
     {
         if (err.empty())
+        {
             err = clause + " " + w_;
+            ++g_failed;
+        }
         return false;
     }
     ob::ProblemDefinitionPtr def(const std::string &p)
@@ -268,6 +275,8 @@ struct Driver
 
     bool step(const vt::Edge &e, bool obs)
     {
+        if (g_failed >= kMaxFailed)
+            return true;
         const json &a = e.args;
         const json &x = e.exp;
         const std::string &act = e.a;
@@ -404,7 +413,7 @@ struct Driver
                     // exhausted by the SPECIFICATION's count - independent of the counter under test
                     ob::PlannerTerminationCondition ptc([&]() {
                         long drawn = w.space->copies - copies0;
-                        if (++evals > 50)
+                        if (++evals > 8)
                         {
                             watchdog = true;
                             return true;
@@ -429,7 +438,7 @@ struct Driver
                 if (obs)
                 {
                     if (watchdog)
-                        return fail("NextGoal:hang", "nextGoal(ptc) kept polling (50 evaluations of the termination condition) "
+                        return fail("NextGoal:hang", "nextGoal(ptc) kept polling (8 evaluations of the termination condition) "
                                                      "although the goal was exhausted");
                     if (st && !w.space->isLive(st))
                         return fail("NextGoal:dangling", "returned pointer is not an allocated state");
@@ -503,6 +512,8 @@ struct Driver
     {
         if (!err.empty())
             return false;
+        if (g_failed >= kMaxFailed)
+            return true;
         g_st.oobCheckerCalls += w.checker->oobCalls;
         // destruction: the iterator, the planner, the definitions: nothing may stay allocated
         own.reset();
@@ -890,7 +901,8 @@ int main(int argc, char **argv)
                          {"tempDrift", g_st.tempDrift},
                          {"oobCheckerCalls", g_st.oobCheckerCalls},
                          {"ptcGoalCalls", g_st.ptcGoalCalls},
-                         {"plainGoalCalls", g_st.plainGoalCalls}});
+                         {"plainGoalCalls", g_st.plainGoalCalls},
+                         {"skippedAfterFailures", g_failed >= kMaxFailed}});
         return rep.failures ? 1 : 0;
     }
     if (mode == "lazy" && argc > 3)
